@@ -151,12 +151,16 @@ def check_tree(U, d, share, rec: Rec, light=False, route="direct"):
             rec.count("nontrivial")
         prune_p = lambda p: pkey[p] in pr  # noqa: E731
         filt_p = lambda p: pkey[p] in fl  # noqa: E731
+        positional = (len(pr) + len(fl)) % 2 == 1   # the documented parameter order (prune, filter, bottom_up) is part of the API
         for fn, bu in (("dfs", False), ("dfs-bu", True)):
             flog, plog = [], []
-            run(fn, root.dfs(prune=mk(pr, plog) if pr else None, filter=mk(fl, flog), bottom_up=bu),
-                (R.post_order if bu else R.pre_order)(U, d, prune_p, filt_p), pr, flog, plog)
+            gen = (root.dfs(mk(pr, plog) if pr else None, mk(fl, flog), bu) if positional
+                   else root.dfs(prune=mk(pr, plog) if pr else None, filter=mk(fl, flog), bottom_up=bu))
+            run(fn, gen, (R.post_order if bu else R.pre_order)(U, d, prune_p, filt_p), pr, flog, plog)
         flog, plog = [], []
-        run("bfs", root.bfs(prune=mk(pr, plog) if pr else None, filter=mk(fl, flog)), R.level_order(U, d, prune_p, filt_p), pr, flog, plog)
+        gen = (root.bfs(mk(pr, plog) if pr else None, mk(fl, flog)) if positional
+               else root.bfs(prune=mk(pr, plog) if pr else None, filter=mk(fl, flog)))
+        run("bfs", gen, R.level_order(U, d, prune_p, filt_p), pr, flog, plog)
 
     # gather
     present = list(dict.fromkeys(dd[0] for dd in desc_at.values()))
